@@ -63,3 +63,44 @@ def classify(case, v):
     labs.append("via=" + case["set"]["via"]); labs.append("u=%g" % case["set"]["u"] if case["set"]["u"] in (0.0, 1e-3, 0.1, 0.5, 1.0) else "u=other")
     if v.get("f", {}).get("pivot_ambiguous", 0) > 0: labs.append("pivot_in_ambiguity_band")
     return labs
+
+
+def _enum_job(args):
+    import core
+    (n, lo, hi, P, prec, variant) = args
+    r = core.Runner(variant); r.start()
+    text = core.render({"set": {"prop": ID, "mode": "forced_enum", "n": n, "lo": lo, "hi": hi, "P": P, "prec": prec, "panel": 1 + (lo % 2), "relax": 1 + (lo % 3), "maxsuper": 4,
+                                "rowblk": 1, "colblk": 1, "timeout_ms": 900000}})
+    v = r.run(text); r.close()
+    return (text, v)
+
+
+def extra_phase(tier, seed):
+    """bounded-exhaustive: every 0/1 pattern of order <=3 (quick; a seeded slice of order 4) / <=4 (thorough) that has a transversal
+    x every row order forced with usepr=YES, u=0 x nprocs in {1,2}"""
+    import os, multiprocessing as mp, numpy as np, core
+    jobs = []
+    for n in (1, 2, 3):
+        for P in (1, 2):
+            for prec in ("d", "z") if n == 3 else ("d",): jobs.append((n, 0, 1 << (n * n), P, prec, "asan"))
+    if tier == "thorough":
+        step = 1 << 11
+        for lo in range(0, 1 << 16, step):
+            for P in (1, 2): jobs.append((4, lo, lo + step, P, "d", "asan"))
+    else:
+        rng = np.random.default_rng(seed)
+        for P in (1, 2):
+            lo = int(rng.integers(0, (1 << 16) - 1024)); jobs.append((4, lo, lo + 1024, P, "d", "asan"))
+    with mp.get_context("fork").Pool(14) as pool:
+        res = pool.map(_enum_job, jobs, chunksize=1)
+    out = {"violations": [], "evaluations": 0, "distinct_nontrivial": 0, "forced_orders_honoured": 0, "forced_orders_not_admissible_skipped": 0, "forced_patterns": 0,
+           "exhaustive_orders": [1, 2, 3] + ([4] if tier == "thorough" else []), "exhaustive": tier == "thorough"}
+    for (text, v) in res:
+        f = v.get("f", {})
+        out["evaluations"] += int(f.get("enum_runs", 0)); out["distinct_nontrivial"] += int(f.get("enum_honoured", 0))
+        out["forced_orders_honoured"] += int(f.get("enum_honoured", 0)); out["forced_orders_not_admissible_skipped"] += int(f.get("enum_fallback", 0)); out["forced_patterns"] += int(f.get("enum_patterns", 0))
+        if v.get("v") != "pass":
+            os.makedirs(os.path.join(core.VERIF, "replays", "found"), exist_ok=True)
+            path = os.path.join(core.VERIF, "replays", "found", "%s_enum_%s.case" % (ID, core.case_hash(text)))
+            open(path, "w").write(text); out["violations"].append((path, v))
+    return out
